@@ -221,6 +221,37 @@ func runC15(c *config) {
 			}
 		}
 	}
+	// constructed terminators whose target lists grow after the constructor returned (cases appended to a switch,
+	// targets to an indirectbr, handlers to a catchswitch, indirect targets to a callbr): the first Succs() call
+	// lists what the fields hold then
+	for variant := 0; variant < 4; variant++ {
+		m := ir.NewModule()
+		callee := m.NewFunc("callee", types.Void)
+		f := m.NewFunc("f", types.Void, ir.NewParam("x", types.I32))
+		var bs []*ir.Block
+		for k := 0; k < 6; k++ {
+			bs = append(bs, f.NewBlock(fmt.Sprintf("b%d", k)))
+		}
+		for k := 1; k < 6; k++ {
+			bs[k].NewRet(nil)
+		}
+		switch variant {
+		case 0:
+			sw := bs[0].NewSwitch(f.Params[0], bs[1], ir.NewCase(constant.NewInt(types.I32, 1), bs[2]))
+			sw.Cases = append(sw.Cases, ir.NewCase(constant.NewInt(types.I32, 2), bs[3]), ir.NewCase(constant.NewInt(types.I32, 3), bs[4]))
+		case 1:
+			ib := bs[0].NewIndirectBr(constant.NewBlockAddress(f, bs[1]), bs[1])
+			ib.ValidTargets = append(ib.ValidTargets, bs[2], bs[3])
+		case 2:
+			cs := bs[0].NewCatchSwitch(constant.None, []*ir.Block{bs[1]}, bs[5])
+			cs.Handlers = append(cs.Handlers, bs[2], bs[3])
+		default:
+			cb := bs[0].NewCallBr(callee, nil, bs[1], bs[2])
+			cb.OtherRetTargets = append(cb.OtherRetTargets, bs[3], bs[4])
+		}
+		o.Stat("constructed_then_extended")
+		c15Succs(c, f)
+	}
 	o.StatN("kinds_reached", len(kinds))
 	var ks []string
 	for k := range kinds {
